@@ -1030,7 +1030,12 @@ class FuncChr(ValueFunc):
     def execute(self, args, environment, pos):
         if args.isNull("n"):
             return NULL
-        return ValueString(chr(args.getInt("n").value))
+        n = args.getInt("n").value
+        if n < 0 or n > 0x10FFFF:
+            raise CklRuntimeError(
+                ValueString("ERROR"), f"Invalid code point {n}", pos
+            )
+        return ValueString(chr(n))
 
 
 class FuncClose(ValueFunc):
@@ -2787,7 +2792,12 @@ class FuncOrd(ValueFunc):
     def execute(self, args, environment, pos):
         if args.isNull("ch"):
             return NULL
-        return ValueInt(ord(args.getString("ch").value[0]))
+        ch = args.getString("ch").value
+        if ch == "":
+            raise CklRuntimeError(
+                ValueString("ERROR"), "Cannot take ord of empty string", pos
+            )
+        return ValueInt(ord(ch[0]))
 
 
 class FuncParse(ValueFunc):
